@@ -177,6 +177,10 @@ def apply(tree_dir, m):
     b1 = lines[l1].encode()
     head = b0[: m["col"]].decode()
     tail = b1[m["end_col"]:].decode()
+    cur = "\n".join(lines[l0:l1 + 1])
+    cur = cur.encode()[m["col"]: len(cur.encode()) - (len(b1) - m["end_col"])].decode()
+    if cur != m["old"]:
+        raise LookupError(f"mutant #{m['id']} is stale: the source at {m['file']}:{m['line']} has changed")
     new_lines = lines[:l0] + [head + m["new"] + tail] + lines[l1 + 1:]
     with open(path, "w") as f:
         f.write("\n".join(new_lines))
@@ -283,7 +287,17 @@ def cmd_checks(args):
     t = make_tree("c0")
     out = os.path.join(MUT, "out")
     for n, m in enumerate(todo):
-        apply(t, m)
+        if m["op"] == "del-call" and m["old"].strip() == "await asyncio.sleep(0)":
+            m["checks"] = {}
+            m["detected_by"] = None
+            m["verdict"] = "equivalent: a bare yield to the event loop"
+            continue
+        try:
+            apply(t, m)
+        except LookupError as e:
+            print(e, flush=True)
+            m["stale"] = True
+            continue
         sh(f"find {t} -name __pycache__ -prune -exec rm -rf {{}} +")
         env = dict(os.environ, REPID_TREE=t, MC_OUT=out, VERIF_SEED="0")
         res = {}
@@ -324,6 +338,13 @@ def cmd_report(args):
         if not m["detected_by"]:
             print(f"  #{m['id']} {m['file']}:{m['line']} {m['op']}: `{m['old'][:70]}` -> `{m['new'][:70]}`")
     os.makedirs("/verif/mutation", exist_ok=True)
+    vp = "/verif/mutation/verdicts.json"
+    verdicts = json.load(open(vp)) if os.path.exists(vp) else {}
+    for m in ms:
+        if str(m["id"]) in verdicts:
+            m["verdict"] = verdicts[str(m["id"])]
+    und = [m for m in checked if not m["detected_by"]]
+    print("undetected without a verdict:", [m["id"] for m in und if not m.get("verdict")])
     slim = [dict(id=m["id"], file=m["file"], line=m["line"], op=m["op"], old=m["old"], new=m["new"], head=m["head"],
                  tests=m.get("tests"), detected_by=m.get("detected_by"),
                  signatures=(m.get("checks", {}).get(m.get("detected_by") or "", {}) or {}).get("signatures"),
